@@ -372,13 +372,23 @@ def sh_rmtree(ex, p, ignore_errors=False, **kw):
     fs_event(ex, 'rmtree', [p])
 
 
-def sh_copy(ex, a, b, what='copyfile'):
+def sh_copy(ex, a, b, what='copyfile', dirs_exist_ok=False):
     run = ex.run
     g = fs_of(ex)
     a, b = as_path(ex, a), as_path(ex, b)
     may_fail(ex, what)
     if not run.decide(z3.Select(g.kind, a.t) != ABSENT, tag='copy_src_exists'):
         raise RaiseEx(ExcVal('FileNotFoundError', origin=what))
+    if what == 'copytree' and run.decide(z3.Select(g.kind, b.t) != ABSENT, tag='copytree_dst_exists'):
+        if not ex.truth(dirs_exist_ok):
+            raise RaiseEx(ExcVal('FileExistsError', origin='copytree'))
+        # merge into the existing tree: the result is NOT the source tree
+        merged = P.ufn('tree_merge', [z3.IntSort(), z3.IntSort()], z3.IntSort())(z3.Select(g.content, b.t), z3.Select(g.content, a.t))
+        set_state(g, b.t, content=merged, complete=False)
+        fs_event(ex, what + '_partial', [a, b], 'copy in progress')
+        set_state(g, b.t, complete=True)
+        fs_event(ex, what, [a, b])
+        return
     set_state(g, b.t, kind=z3.Select(g.kind, a.t), content=z3.IntVal(0), complete=False)
     fs_event(ex, what + '_partial', [a, b], 'copy in progress')
     set_state(g, b.t, content=z3.Select(g.content, a.t), complete=True)
